@@ -30,6 +30,11 @@ CLAIMED["C06"] = ("ovf-codec+ovf-system", "exploration",
   "Server decoders built from generated credentials and user tables are fed random bytes, reference-built valid handshakes under other / one-bit-different keys, other protocols' handshakes, handshakes truncated before the proof, identity-header and auth-id near-misses; no dial item (ConnectTcp / RelayUdp / decoded datagram) may come out. For every user of generated tables the reply must open under that user's key and under no other key. Exploration: a sampled negative space, not a cryptographic proof.",
   "Trusted: reference encoder for building near-miss handshakes; AEAD/hash primitives.", "DESIGN.md 5/C06")
 
+CLAIMED["C07"] = ("ovf-codec+ovf-fuzz", "exploration",
+  "structure-aware fuzzing: proptest-generated raw / valid-prefix+raw / mutated-valid inputs and reference-sealed malformed plaintexts into every network-facing decoder with panic capture; exhaustive tiny inputs; libFuzzer targets (ASan, debug assertions) in the thorough tier",
+  "Arbitrary bytes x segmentation x ending are fed with FramedRead's calling convention to every network-facing decoder of server, client and local side; the sealed-malformed family seals generated malformed plaintexts under the correct key to reach the parsing behind authentication. Oracle: no panic, valid UTF-8 domain names, result is Err/None/item. Exhaustive for inputs of length <= 1, a grid of length 2 and all prefixes of one valid message per decoder. Exploration: absence of crashes is not proven.",
+  "Trusted: panic hook + catch_unwind as crash detector (aborts would kill the check: reported as exit 2), reference sealing.", "DESIGN.md 5/C07")
+
 PENDING = {}
 
 def main():
